@@ -185,6 +185,7 @@ func (h *Session) Parse(p []byte) (frame Frame, err error) {
 		atomic.StoreUint32(&h.ipHeartBeat, 1)
 		h.Statistics[PayloadIP4].Count++
 		frame.offsetIP4 = frame.offsetPayload
+		frame.ether = frame.ether[:frame.offsetIP4+int(ip4.TotalLen())] // drop ethernet padding: the datagram ends at TotalLen
 		frame.offsetPayload = frame.offsetPayload + ip4.IHL()
 		proto = ip4.Protocol()
 		frame.SrcAddr.IP = ip4.Src()
